@@ -12,6 +12,7 @@ from mirsym.harness import *
 from mirsym.engine import NONE, SOME
 
 ID = 'C32'
+TECHNIQUE = 'symbolic execution of rustc MIR (path-forking) + z3 SMT queries per path over a byte-string model of std::path (unix) validated per path against the compiled code; counterexamples replayed natively; thorough tier adds a Kani/CBMC harness for to_fs_name'
 CRATES = ['jj-lib']
 NATIVE = 'c32'
 KANI = ['c32_to_fs_name_3']
